@@ -322,7 +322,7 @@ def _subst_names(node, mapping):
     return T().visit(copy.deepcopy(node))
 
 
-def returned_tuple(h, call, not_none=lambda name: False):
+def returned_tuple(h, call, not_none=lambda name: False, tuple_type=lambda name: False):
     """The elements of the tuple the helper `h` returns for the call `call`, as
     expressions of the *caller's* scope: helper locals inlined, nested
     single-expression closures applied, parameters replaced by the arguments,
@@ -331,14 +331,25 @@ def returned_tuple(h, call, not_none=lambda name: False):
     rets = [n for n in ast.walk(h) if isinstance(n, ast.Return)]
     nested = {n.name: n for n in h.body if isinstance(n, ast.FunctionDef)}
     rets = [r for r in rets if not any(r in ast.walk(nf) for nf in nested.values())]
-    if len(rets) != 1 or not isinstance(rets[0].value, ast.Tuple) or \
-            h.body[-1] is not rets[0]:
+    if len(rets) != 1 or h.body[-1] is not rets[0] or rets[0].value is None:
+        return None
+    rv = rets[0].value
+    if isinstance(rv, ast.Name):
+        rv = inline_locals(h, rv, depth=1)
+    if isinstance(rv, ast.Call) and isinstance(rv.func, ast.Name) and \
+            tuple_type(rv.func.id) and not rv.keywords and \
+            not any(isinstance(a_, ast.Starred) for a_ in rv.args):
+        # a NamedTuple / namedtuple built positionally is the tuple of its fields
+        elts = rv.args
+    elif isinstance(rv, ast.Tuple):
+        elts = rv.elts
+    else:
         return None
     mp = bind_call_args(h, call)
     if mp is None:
         return None
     out = []
-    for e in rets[0].value.elts:
+    for e in elts:
         e = inline_locals(h, e)
         # apply nested closures `def g(x): return <expr>`
         for _ in range(3):
@@ -386,7 +397,8 @@ def returned_tuple(h, call, not_none=lambda name: False):
     return out
 
 
-def expand_starred_args(call, resolve, not_none=lambda name: False):
+def expand_starred_args(call, resolve, not_none=lambda name: False,
+                        tuple_type=lambda name: False, fnode=None):
     """Positional arguments of `call` with every `*obj.H(...)` replaced by the
     elements of the tuple H returns (resolve(name) -> FunctionDef | None);
     None when some starred argument cannot be expanded statically."""
@@ -396,6 +408,16 @@ def expand_starred_args(call, resolve, not_none=lambda name: False):
             out.append(a)
             continue
         v = a.value
+        if isinstance(v, ast.Name) and fnode is not None:
+            # *name: the tuple the local was bound to (once)
+            d = single_defs(fnode).get(v.id)
+            if d is not None:
+                v = d
+        if isinstance(v, ast.Call) and isinstance(v.func, ast.Name) and \
+                tuple_type(v.func.id) and not v.keywords and \
+                not any(isinstance(x_, ast.Starred) for x_ in v.args):
+            out.extend(v.args)
+            continue
         if isinstance(v, (ast.Tuple, ast.List)):
             out.extend(v.elts)
             continue
@@ -403,7 +425,7 @@ def expand_starred_args(call, resolve, not_none=lambda name: False):
             return None
         name = v.func.attr if isinstance(v.func, ast.Attribute) else v.func.id
         h = resolve(name)
-        elts = returned_tuple(h, v, not_none) if h is not None else None
+        elts = returned_tuple(h, v, not_none, tuple_type) if h is not None else None
         if elts is None:
             return None
         out.extend(elts)
@@ -690,6 +712,12 @@ def private_closure(prog, C, roots):
                 g = prog.lookup(C, n.func.attr)
                 if g is not None and g not in out:
                     work.append(g)
+            # a private module-level function called by its bare name
+            elif isinstance(n, ast.Call) and isinstance(n.func, ast.Name) and \
+                    n.func.id.startswith("_") and not n.func.id.startswith("__"):
+                r = prog.resolve_name(f.module, n.func.id)
+                if r and r[0] == "func" and r[1] not in out:
+                    work.append(r[1])
     return out
 
 
